@@ -1,1 +1,18 @@
 import AL.Props.C06
+#print axioms AL.C06.any_assignable
+#print axioms AL.C06.assignable_mono_right
+#print axioms AL.C06.merge_mono_counterexample
+#print axioms AL.C06.merge_mono'
+#print axioms AL.C06.merge_mono_needs_wf
+#print axioms AL.C06.compare_mono
+#print axioms AL.C06.builtin_same_ret
+#print axioms AL.C06.builtin_rets_wf
+#print axioms AL.C06.builtin_vars_wf
+#print axioms AL.C06.cex_accepted
+#print axioms AL.C06.cex_rejected
+#print axioms AL.C06.mono_counterexample
+#print axioms AL.C06.mono'
+#print axioms AL.C06.mono_arrSafe
+#print axioms AL.C06.mono_needs_wf
+#print axioms AL.C06.driver_env_wf
+#print axioms AL.C06.events_independent
